@@ -12,7 +12,7 @@ import sys
 
 REPO = os.environ.get("UPVERIF_REPO", "/repo")
 HERE = os.path.dirname(os.path.abspath(__file__))
-GEN = os.path.join(HERE, "..", "lean", "UPVerif", "Gen")
+GEN = os.path.join(os.environ.get("UPVERIF_LEAN") or os.path.join(HERE, "..", "lean"), "UPVerif", "Gen")
 
 
 class TranslationBroken(Exception):
